@@ -93,6 +93,52 @@ func (x *Exec) call(st *State, c *ssa.Call, k func(st *State, res Val)) {
 	k(st, x.resultOf(sig, rs))
 }
 
+// genericHeapUse: the body allocates or dereferences objects of a struct type that mentions a type parameter
+func genericHeapUse(fn *ssa.Function) bool {
+	var mentions func(t types.Type, depth int) bool
+	mentions = func(t types.Type, depth int) bool {
+		if depth > 4 {
+			return false
+		}
+		switch u := t.(type) {
+		case *types.TypeParam:
+			return true
+		case *types.Pointer:
+			return mentions(u.Elem(), depth+1)
+		case *types.Slice:
+			return mentions(u.Elem(), depth+1)
+		case *types.Named:
+			if ta := u.TypeArgs(); ta != nil {
+				for i := 0; i < ta.Len(); i++ {
+					if mentions(ta.At(i), depth+1) {
+						return true
+					}
+				}
+			}
+		}
+		return false
+	}
+	for _, b := range fn.Blocks {
+		for _, in := range b.Instrs {
+			switch v := in.(type) {
+			case *ssa.Alloc:
+				if v.Heap && isStruct(v.Type().Underlying().(*types.Pointer).Elem()) && mentions(v.Type(), 0) {
+					return true
+				}
+			case *ssa.FieldAddr:
+				if mentions(v.X.Type(), 0) {
+					return true
+				}
+			case *ssa.MakeSlice:
+				if mentions(v.Type(), 0) {
+					return true
+				}
+			}
+		}
+	}
+	return false
+}
+
 func sortKey(s *Sort) string {
 	r := strings.NewReplacer("(", "", ")", "", " ", "", "_", "")
 	return r.Replace(s.String())
@@ -135,6 +181,11 @@ func (x *Exec) staticCall(st *State, c *ssa.Call, fn *ssa.Function, args []Val, 
 		return
 	}
 	if len(target.Blocks) > 0 && inlinable(target) && !e.hasLoops(target) && !x.onStack(st, target) && st.ext().depth < 16 {
+		if target != fn && genericHeapUse(target) {
+			// the origin body speaks about T[V] objects while the instantiated caller speaks about T[int]
+			// objects: their fields live in different heap maps, so inlining would silently disconnect them
+			x.fail("generic function %s allocates or accesses generic struct objects and is called from an instantiated context: it needs a contract", name)
+		}
 		sig := target.Signature
 		x.pushFrame(st, target, args, func(st *State, rs []Val) { k(st, x.resultOf(sig, rs)) })
 		x.runBlock(st, target.Blocks[0], nil)
